@@ -147,6 +147,7 @@ WithOnlyPref(p, a, x) ==
 \* zone".  Where the zone lies inside the inclusion bounds (the documented SystemBounds shape)
 \* the design adopts a zero preference and the clauses pin that; where the inclusion bounds end
 \* inside the zone either outcome is accepted (weakest reading).
+StandardSys(s) == ~s.has \/ (s.lo <= s.xlo /\ s.xhi <= s.hi)
 ZeroUndetermined(x, s) == x = 0 /\ InZone(0, s) /\ ~(s.lo <= s.xlo /\ s.xhi <= s.hi)
 
 \* "x is adopted unchanged" predicate of the reported range b = <<lo, hi>> for actor a
